@@ -6,6 +6,8 @@ correspondence run only.
 -/
 import ShpanVerif.Model.JsonFrame
 
+
+set_option autoImplicit false
 namespace ShpanVerif.Proofs.JsonLex
 open List ShpanVerif.Model.JsonFrame
 
